@@ -17,6 +17,8 @@ units/vmk, arms lifted from step()):
   symbolic: 2.5M variables / 11M clauses, 380 s; root causes: every pointer travels through
   a u64, Vec::push on a symbolic length explores a realloc per push, a symbolic object
   pointer makes all five ObjectKind branches live).
+  Channels are heap objects like the others within ONE thread (shapes `chan`, `chanalias`): a
+  channel's children are the values in its queue.  Queues shared across threads are C09's subject.
 * Kani/CBMC on concrete-shape worlds with symbolic contents (scalars with arbitrary bits,
   colours, collector state) -- CBMC's own dereference / double-free / layout / leak checks are
   the second oracle -- plus the concrete multi-step defect scenario and the C07 drop harnesses.
@@ -50,9 +52,10 @@ INV_TEXT = (
     "inv(t) = state_ok && (forall p. obj_ok(p)) && roots_ok && size_ok   [harness.rs, mod vm::u6]\n"
     "colours: MARKED <=> header.visited == gc_visited (gc_visited is constantly true); GREY = on gray_stack; "
     "BLACK = marked, not grey; WHITE = not marked.  SAFE(p) = true in Idle/Marking; in Sweeping{index}: p < index || marked.\n"
-    "state_ok : gc_visited; Sweeping index <= len; gray_stack empty unless Marking; heap_list duplicate-free, no no_gc, no channel; "
+    "state_ok : gc_visited; Sweeping index <= len; gray_stack empty unless Marking; heap_list duplicate-free, no no_gc object; "
     "gray_stack subset of marked subset of heap_list (static strings tolerated); Idle => all white; Sweeping => positions < index white.\n"
-    "obj_ok(p): if SAFE(p), every field is a scalar, a static string, or a well-typed pointer to a live SAFE object of heap_list, "
+    "children(p) = struct fields / array elements / enum payload / for a ChannelObject the Values in its queue (one thread: queued pointers point into this heap).\n"
+    "obj_ok(p): if SAFE(p), every child is a scalar, a static string, or a well-typed pointer to a live SAFE object of heap_list, "
     "a MARKED one if p is black (tri-colour: no black->white edge).\n"
     "roots_ok : every value_stack slot and string_operand1/2 is a scalar, a static string or a well-typed pointer to a live SAFE object "
     "(a root may be white while Marking: stack writes have no barrier, so mark termination must look at the roots again).\n"
@@ -289,7 +292,7 @@ KANI_OBS = {
     'drop_thread_frees_all': ("C07.drop.thread.frees_all", ["C07"], "impl Drop for VmGreenThread / ObjectHeader::dealloc",
         "thread owning one object of each kind (enum, array grown by the real ArrayPush, string, struct), colours arbitrary; "
         "heap_size == sum nbytes; drop; heap_size == 0; CBMC: no double free, dealloc layout size == allocation size, --memory-leak-check clean",
-        "4 objects, one per kind (channels excluded)"),
+        "4 objects, one per kind except Channel"),
     'drop_shared_frees_static_strings': ("C07.drop.shared.frees_static_strings", ["C07"], "VmSharedReadonly (owner of static_strings) / StringObject::new_static",
         "shared state built with the two statements of Runtime::new (new_static + push) holding one string constant, one thread; "
         "everything dropped; CBMC --memory-leak-check: nothing may stay allocated", "one string constant, one thread"),
